@@ -85,6 +85,9 @@ def worker_init() -> None:
     from simkit.core import assert_repo_spsdk
 
     assert_repo_spsdk()
+    from c10 import sdpsim
+
+    sdpsim.init(M)
     _READY = True
 
 
@@ -636,6 +639,10 @@ def _dedup(records):
 
 def execute(plan: dict) -> dict:
     worker_init()
+    if plan.get("proto"):
+        from c10 import sdpsim
+
+        return sdpsim.Run(plan).execute()
     if plan.get("sweep"):
         return execute_sweep(plan)
     return Run(plan).execute()
@@ -842,6 +849,10 @@ def gen_fault(rng: random.Random, nops: int, transport: str, ops: list, mp: int,
 
 
 def gen_plan(family: str, i: int, rng: random.Random, tier: str) -> dict:
+    if family.startswith("sdp"):
+        from c10 import sdpsim
+
+        return sdpsim.gen_plan(family, i, rng, tier)
     transport = rng.choice(["uart", "hid"])
     mp = rng.choice([32, 32, 56, 64, 128, 256, 512, 1016]) if transport == "hid" else rng.choice([32, 32, 64, 128, 256, 512, 1024])
     timeout_ms = rng.choice([100, 500, 2000, 5000])
@@ -883,8 +894,8 @@ def gen_plan(family: str, i: int, rng: random.Random, tier: str) -> dict:
 
 def families(tier: str):
     if tier == "quick":
-        return [("control", 1200), ("faulty", 2400), ("extra", 300), ("sweep", 60)]
-    return [("control", 40000), ("faulty", 110000), ("extra", 8000), ("sweep", 1500)]
+        return [("control", 1500), ("faulty", 4000), ("extra", 300), ("sweep", 80), ("sdp_control", 600), ("sdp_faulty", 1200), ("sdps", 150)]
+    return [("control", 40000), ("faulty", 110000), ("extra", 8000), ("sweep", 1500), ("sdp_control", 15000), ("sdp_faulty", 40000), ("sdps", 2000)]
 
 
 def reductions(plan: dict):
@@ -929,7 +940,7 @@ def reductions(plan: dict):
     yield from ddmin_lists(plan, [["faults"]])
     for k, o in enumerate(plan["ops"]):
         if o.get("len", 0) > 1:
-            for nl in (1, o["len"] // 2, plan["max_packet"], plan["max_packet"] + 1):
+            for nl in (1, o["len"] // 2, plan.get("max_packet", 64), plan.get("max_packet", 64) + 1):
                 if 0 < nl < o["len"]:
                     c = copy.deepcopy(plan)
                     c["ops"][k]["len"] = nl
